@@ -141,7 +141,7 @@ var intSpecs = []valueSpec{
 	{"TypeShort", []int64{-1}, "C10-R2", map[string]string{
 		"unsigned": "AppendUint(nil,LE(2,data[pos]),10)", "!unsigned": "AppendInt(nil,conv<int64>(conv<int16>(LE(2,data[pos]))),10)"}, "16-bit integer"},
 	{"TypeInt24", []int64{-1}, "C10-R2", map[string]string{
-		"!unsigned && ((& 128 data[pos+2]) > 0)": "AppendInt(nil,conv<int64>(conv<int32>(LE(3,data[pos])+4278190080)),10)", "": "AppendUint(nil,LE(3,data[pos]),10)"}, "24-bit integer"},
+		"!((& 128 data[pos+2]) == 0) && !unsigned": "AppendInt(nil,conv<int64>(conv<int32>(LE(3,data[pos])+4278190080)),10)", "": "AppendUint(nil,LE(3,data[pos]),10)"}, "24-bit integer"},
 	{"TypeLong", []int64{-1}, "C10-R2", map[string]string{
 		"unsigned": "AppendUint(nil,LE(4,data[pos]),10)", "!unsigned": "AppendInt(nil,conv<int64>(conv<int32>(LE(4,data[pos]))),10)"}, "32-bit integer"},
 	{"TypeLongLong", []int64{-1}, "C10-R2", map[string]string{
